@@ -1,9 +1,9 @@
 \* thorough: bounded indication queue of 2, tester may hold the callback: all histories of 5 requests
-\* over the small queue alphabet (4); scripts that force the queue.Full branch are printed
+\* over the tiny queue alphabet (3); scripts that force the queue.Full branch are printed
 SPECIFICATION Spec
 CONSTANTS
   MaxReq = 5
-  Alphabet <- QueueAlphabetSmall
+  Alphabet <- QueueTiny
   San = TRUE
   ClChk = TRUE
   Threaded = TRUE
